@@ -999,6 +999,9 @@ def _literal_value(node: ast.AST) -> bool:
         return getattr(node_value, node.func.attr)(*args)
 
     if isinstance(node, ast.Call):
+        if node.keywords or any(isinstance(arg, ast.Starred) for arg in node.args):
+            raise ValueError("Cannot find a deterministic value for a call with keywords or *args")
+
         if isinstance(node.func, ast.Name) and node.func.id in constants.BUILTIN_FUNCTIONS:
             args = [literal_value(arg) for arg in node.args]
             return getattr(builtins, node.func.id)(*args)
